@@ -24,7 +24,7 @@ class C09(Prop):
                 "NV.C09.connect_order_as_modelled", "NV.C09.hb_remove_as_modelled", "NV.C09.hb_round_as_modelled",
                 "NV.C09.sweep_tests_as_modelled", "NV.C09.cursor_as_modelled", "NV.C09.backend_loop_as_modelled",
                 "NV.C09.slot_search_as_modelled", "NV.C09.process_io_as_modelled", "NV.C09.remove_tests_as_modelled",
-                "NV.C09.apply_sites_as_modelled", "NV.C09.guards_present", "NV.C09.apply_touch_as_modelled",
+                "NV.C09.apply_sites_as_modelled", "NV.C09.no_new_unprotected_apply_site", "NV.C09.guards_present", "NV.C09.apply_touch_as_modelled",
                 "NV.C09.input_to_call_as_modelled", "NV.C09.set_call_as_modelled", "NV.C09.prompt_as_modelled",
                 "NV.C09.command_branches_as_modelled", "NV.C09.preload_as_modelled", "NV.C09.error_handler_stmts_as_modelled",
                 "NV.C09.batch_any_order_good", "NV.C09.stale_event_skipped", "NV.C09.freed_record_events_are_stale",
@@ -330,7 +330,19 @@ class C09(Prop):
         sites = []
         for fname, src in (("backend.c", back), ("error_context.c", ec), ("comm.c", comm), ("call_out.c", co)):
             sites += apply_sites(fname, src)
-        cmp_sites["applySites"] = sites
+        # exact inventory for the functions the model mirrors; for all other functions only the UNPROTECTED sites matter
+        # (file:function, each once): protecting one of them, or adding a protected site, is harmless and must not
+        # break the tie - a NEW unprotected site does
+        modelled_fns = ("mudlib_connect", "mudlib_logon", "look_for_objects_to_swap", "call_heart_beat", "preload_objects",
+                        "mudlib_error_handler", "process_user_command", "remove_interactive", "call_function_interactive",
+                        "print_prompt", "receive_snoop", "call_out")
+        cmp_sites["applySites"] = [x for x in sites if x.split(":")[1] in modelled_fns]
+        elsewhere = []
+        for x in sites:
+            f, fn, call, _ = x.split(":", 3)
+            if fn not in modelled_fns and not call.startswith("safe_") and (f + ":" + fn) not in elsewhere:
+                elsewhere.append(f + ":" + fn)
+        cmp_sites["unprotectedElsewhere"] = elsewhere
         # shape guards of the repaired code: the model mirrors these forms
         guards = [
             (r"if\s*\(\s*all_users\s*&&\s*all_users\s*\[\s*0\s*\]\s*\)\s*\n\s*flush_message", comm, "process_io:all_users guard"),
@@ -527,7 +539,60 @@ class C09(Prop):
         return B
 
     # ---- oracle self-test: traces the compiled judge must reject ------------------
+    def tie_diffs(self):
+        """precise report for a broken bridging lemma: which entry of which regenerated list differs from the list the
+        lemma in Bridge.lean expects (names the function / statement instead of a Lean line number)"""
+        out = []
+        try:
+            gen = open(os.path.join(E.VERIF, "lean/NV/Gen/C09.lean")).read()
+            br = open(os.path.join(E.VERIF, "lean/NV/C09/Bridge.lean")).read()
+        except OSError:
+            return out
+
+        def items(txt):
+            return re.findall(r'"((?:[^"\\\\]|\\\\.)*)"', txt)
+
+        def list_at(txt, pos):
+            """the bracketed list literal starting at the first `[` at or after pos (string aware)"""
+            i = txt.find("[", pos)
+            if i < 0:
+                return ""
+            k, instr = i, False
+            while k < len(txt):
+                ch = txt[k]
+                if instr:
+                    if ch == "\\":
+                        k += 1
+                    elif ch == '"':
+                        instr = False
+                elif ch == '"':
+                    instr = True
+                elif ch == "]":
+                    return txt[i:k + 1]
+                k += 1
+            return ""
+        for m in re.finditer(r"theorem (\w+) :\s*NV\.Gen\.C09\.(\w+) =", br):
+            thm, name = m.group(1), m.group(2)
+            g = re.search(r"def %s : List String :=" % name, gen)
+            if not g:
+                continue
+            want, have = items(list_at(br, m.end())), items(list_at(gen, g.end()))
+            if have != want:
+                gone = [x for x in want if x not in have]
+                new = [x for x in have if x not in want]
+                out.append("%s (Gen.%s): source no longer has %s; source now has %s%s" % (
+                    thm, name, gone or "-", new or "-", "" if gone or new else " (same entries, order changed)"))
+        m = re.search(r"def unprotectedElsewhere : List String :=", gen)
+        a = re.search(r"def unprotectedAllowed : List String :=", br)
+        if m and a:
+            extra = [x for x in items(list_at(gen, m.end())) if x not in items(list_at(br, a.end()))]
+            if extra:
+                out.append("no_new_unprotected_apply_site: NEW unprotected driver-initiated apply in %s" % extra)
+        return out
+
     def extra_checks(self, ctx, tier, rng):
+        pre_problems = [{"kind": "obligation-broken", "name": "tie detail: " + d.split(":")[0], "detail": d}
+                        for d in self.tie_diffs()]
         head = ["load reg /c09/reg", "mode net", "step conn:c1", "step send:c1:a/b/", "step idle", "run", "--"]
         tail = ["exit loop", 'hbs ""', "refs 0 0", "slots 1", "slotidx 1"]
         pre = ["start", "cycle 1", "t connect k1", "t logon u1", "cycle 2"]
@@ -549,7 +614,7 @@ class C09(Prop):
         good = pre + ["t input u1 a", "t cmd u1 a", "cycle 3", "t input u1 b", "t cmd u1 b"] + tail
         cases = [E.Case("neg-" + k, head + v) for k, v in bad.items()] + [E.Case("pos-good", head + good)]
         out = E.nvdrive(self.id, "judge", E.cases_text(cases))
-        problems = []
+        problems = pre_problems
         for k in bad:
             if out.get("neg-" + k, ["ok"]) == ["ok"]:
                 problems.append({"kind": "obligation-broken", "name": "oracle self-test: " + k,
